@@ -36,6 +36,7 @@ static int tid = 0;                         // logical thread: 100 = consumer, o
 static std::size_t advance = 1000000;       // reads-from choice of the next load of another thread's variable
 static bool in_consume = false;
 static std::string problem;                 // mutex violation etc.
+static bool try_inside = false;             // an action of another thread is being attempted while the consumer holds the mutex
 static std::function<void()> hookA;         // before the closed test of the next channel
 static std::function<void()> hookB;         // before the consumer's load of the write index
 struct Hist { std::vector<std::uint64_t> vals; int owner = -1; std::size_t seen = 0; };
@@ -59,10 +60,16 @@ template <class T> struct verif_atomic
   }
   void store(T x, memory_order = memory_order_seq_cst) { h.owner = vs::tid; h.vals.push_back(static_cast<std::uint64_t>(x)); }
 };
+struct verif_would_block {};
 struct verif_mutex
 {
   bool held = false;
-  void lock() { if (held && vs::problem.empty()) vs::problem = "mutex-acquired-while-held"; held = true; }
+  void lock()
+  {
+    // a thread other than the consumer asking for the mutex while consume / reconsumeMetadata holds it would block: unwind it (nothing has been modified yet)
+    if (held && vs::try_inside) throw verif_would_block{};
+    if (held && vs::problem.empty()) vs::problem = "mutex-acquired-while-held"; held = true;
+  }
   void unlock() { held = false; }
 };
 template <class M> struct verif_lock_guard { M& m; explicit verif_lock_guard(M& mm) : m(mm) { m.lock(); } ~verif_lock_guard() { m.unlock(); } };
@@ -166,7 +173,15 @@ static std::vector<std::string> splitc(const std::string& s, char c)
 struct RecOut
 {
   std::vector<std::string> writes;
-  RecOut& write(const char* p, std::streamsize n) { writes.emplace_back(p, std::size_t(n)); return *this; }
+  std::size_t calls = 0, throw_at = 0, hook_at = 0;
+  std::function<void()> hook;
+  RecOut& write(const char* p, std::streamsize n)
+  {
+    ++calls;
+    if (calls == throw_at) throw std::runtime_error("sink failure");      // before taking any byte
+    if (calls == hook_at && hook) { auto f = hook; hook = nullptr; f(); }   // another thread acts while this write is in progress
+    writes.emplace_back(p, std::size_t(n)); return *this;
+  }
 };
 
 static int g_evals = 0;          // argument evaluations of log statements (C19)
@@ -236,6 +251,27 @@ struct Runner
     else { deferred.push_back("a" + std::to_string(w) + ".0." + payloadHex); }
     vs::tid = savedTid; vs::advance = savedAdv;
   }
+  void statement(const std::string& a)
+  {
+    const auto p = splitc(a.substr(1), '.');
+    if (a[0] == 'r')
+    {
+      const std::string n = p[0]; vs::tid = 99;
+      session.addEventSource(binlog::EventSource{0, binlog::Severity::info, "cat" + n, "fn" + n, "file" + n + ".cpp", 100 + std::stoull(n), "msg " + n + " {}", "i"});
+      return;
+    }
+    auto it = writers.find(std::stoi(p[0])); if (it == writers.end()) return;
+    vs::tid = it->first; vs::advance = 0;
+    g_sites[std::stoul(p[1]) % 8](*it->second, std::stoull(p[2]), std::stoi(p[3]));
+  }
+  bool tryInside(const std::string& a)
+  {
+    const int savedTid = vs::tid; const std::size_t savedAdv = vs::advance; bool done = true;
+    vs::try_inside = true;
+    try { statement(a); } catch (const std::verif_would_block&) { done = false; }
+    vs::try_inside = false; vs::tid = savedTid; vs::advance = savedAdv;
+    return done;
+  }
   void runActs(const std::string& acts)
   {
     if (acts.empty()) return;
@@ -247,6 +283,11 @@ struct Runner
         if (blocked(w)) { deferred.push_back(a); continue; }
         const int savedTid = vs::tid; vs::tid = w; writers.erase(w); vs::tid = savedTid;
       }
+      else if (a[0] == 's' || a[0] == 'r')
+      {
+        // s<w>.<site>.<clock>.<arg>: a log statement (first-time registration takes the mutex); r<n>: addEventSource of site n
+        if (!tryInside(a)) deferred.push_back(a);
+      }
       else
       {
         const auto p = splitc(a.substr(1), '.');
@@ -256,11 +297,20 @@ struct Runner
     }
   }
 
-  std::string consume(const std::string& planText)
+  void runDeferred(const std::vector<std::string>& d)
+  {
+    for (const std::string& a : d)
+    {
+      if (a[0] == 'c') { const int w = std::stoi(a.substr(1)); vs::tid = w; writers.erase(w); }
+      else if (a[0] == 's' || a[0] == 'r') { statement(a); vs::advance = 1000000; }
+      else { const auto p = splitc(a.substr(1), '.'); addRaw(std::stoi(p[0]), 0, unhex(p[2])); }
+    }
+  }
+  std::string consume(const std::string& planText, std::size_t throwAt = 0)
   {
     std::vector<std::vector<std::string>> plans;
     if (!planText.empty()) for (const std::string& p : splitc(planText, ';')) plans.push_back(splitc(p, '|'));
-    RecOut out; std::size_t idx = 0;
+    RecOut out; out.throw_at = throwAt; std::size_t idx = 0;
     std::function<void()> armA;
     armA = [&]()
     {
@@ -275,15 +325,12 @@ struct Runner
     };
     armA();
     vs::tid = 100; vs::in_consume = true; vs::pending_acquire_hist = nullptr;
-    const binlog::Session::ConsumeResult r = session.consume(out);
+    binlog::Session::ConsumeResult r; bool threw = false;
+    try { r = session.consume(out); } catch (const std::runtime_error&) { threw = true; }
     vs::in_consume = false; vs::hookA = nullptr; vs::hookB = nullptr; vs::advance = 1000000;
     const std::vector<std::string> d = deferred; deferred.clear();
-    for (const std::string& a : d)
-    {
-      if (a[0] == 'c') { const int w = std::stoi(a.substr(1)); vs::tid = w; writers.erase(w); }
-      else { const auto p = splitc(a.substr(1), '.'); addRaw(std::stoi(p[0]), 0, unhex(p[2])); }
-    }
-    std::ostringstream o; o << 'W';
+    runDeferred(d);
+    std::ostringstream o; o << (threw ? 'X' : 'W');
     for (std::size_t i = 0; i < out.writes.size(); ++i) { if (i) o << ','; o << hex(out.writes[i]); }
     o << ';' << r.bytesConsumed << ',' << r.totalBytesConsumed << ',' << r.channelsPolled << ',' << r.channelsRemoved;
     return o.str();
@@ -323,9 +370,14 @@ struct Runner
     if (op == "cs") { vs::tid = 99; session.setClockSync(binlog::ClockSync{std::stoull(f[1]), std::stoull(f[2]), std::stoull(f[3]), std::int32_t(std::uint32_t(std::stoull(f[4]))), unhex(f[5])}); return "-"; }
     if (op == "ms") { vs::tid = 99; session.setMinSeverity(static_cast<binlog::Severity>(std::stoul(f[1]))); return "-"; }
     if (op == "co") { return consume(f.size() > 1 ? f[1] : std::string()); }
-    if (op == "rc")
+    if (op == "cf") { return consume(std::string(), std::stoull(f[1])); }       // consume into a sink whose f[1]-th write fails
+    if (op == "rc" || op == "rs")
     {
-      RecOut out; vs::tid = 100; const binlog::Session::ConsumeResult r = session.reconsumeMetadata(out);
+      // rs:<k>:<acts>: other threads act while the k-th write of reconsumeMetadata is in progress
+      RecOut out; vs::tid = 100;
+      if (op == "rs") { out.hook_at = std::stoull(f[1]); const std::string acts = f[2]; out.hook = [this, acts]() { runActs(acts); }; }
+      const binlog::Session::ConsumeResult r = session.reconsumeMetadata(out);
+      if (op == "rs") { const std::vector<std::string> d = deferred; deferred.clear(); runDeferred(d); }
       std::ostringstream o; o << 'W';
       for (std::size_t i = 0; i < out.writes.size(); ++i) { if (i) o << ','; o << hex(out.writes[i]); }
       o << ';' << r.bytesConsumed << ',' << r.totalBytesConsumed << ',' << r.channelsPolled << ',' << r.channelsRemoved;
@@ -359,7 +411,7 @@ int main()
   std::string line;
   while (std::getline(std::cin, line))
   {
-    if (line.find(" lg:") != std::string::npos)
+    if (line.find(" lg:") != std::string::npos || line.find("|s") != std::string::npos || line.find(",s") != std::string::npos)
     {
       // log statement sites keep their source id in a function-local static: one process per case
       std::cout.flush();
